@@ -14,9 +14,27 @@ import (
 )
 
 // vxImage is an io.ReaderAt over a byte image with short reads at its end.
-type vxImage struct{ b []byte }
+// vxImage is a WAL file. With hole > 0 the file is the header, then `hole` bytes
+// that read as zeros (frames nobody looks at: a resume only reads the frame before
+// its offset), then the frames of b: a WAL of several GiB without its bytes.
+type vxImage struct {
+	b    []byte
+	hole int64
+}
 
 func (r *vxImage) ReadAt(p []byte, off int64) (int, error) {
+	if r.hole > 0 && off >= 32 {
+		if off < 32+r.hole {
+			if off+int64(len(p)) > 32+r.hole {
+				return 0, io.ErrUnexpectedEOF // a read straddling the hole's end: never issued on frame boundaries
+			}
+			for i := range p {
+				p[i] = 0
+			}
+			return len(p), nil
+		}
+		off -= r.hole
+	}
 	if off >= int64(len(r.b)) {
 		return 0, io.EOF
 	}
@@ -324,9 +342,14 @@ func VxC09Resume() {
 	if unaligned {
 		offset += 8
 	}
+	// FAR > 0: the frames sit FAR frames into the file (beyond 4 GiB for FAR*fs >= 2^32)
+	hole := int64(vx.Param("FAR", 0)) * int64(fs)
+	if hole > 0 && j > 0 {
+		offset += hole
+	}
 	ctx := context.Background()
 	full := vxRecover(img, ps, 0, 0, 0)
-	rd, err := NewWALReaderWithOffset(ctx, &vxImage{b: img}, offset, a1, a2, vxLogger())
+	rd, err := NewWALReaderWithOffset(ctx, &vxImage{b: img, hole: hole}, offset, a1, a2, vxLogger())
 	if j == 0 && !unaligned {
 		vx.Assert("offset-at-header-rejected", err != nil)
 		return
@@ -361,13 +384,13 @@ func VxC09Resume() {
 	present, off, size, refEnd, lastPgOK, any := ref.witness(q, ref.acc)
 	got, ok := m[q]
 	if ok {
-		vx.Assert("page-mapped-only-if-committed", vx.And(present, got == off))
+		vx.Assert("page-mapped-only-if-committed", vx.And(present, got == off+hole))
 	} else {
 		vx.Assert("committed-page-is-mapped", vx.Not(present))
 	}
 	if len(m) > 0 {
 		vx.Assert("commit-size", vx.And(any, commit == size))
-		vx.Assert("end-offset", vx.Implies(lastPgOK, end == refEnd))
+		vx.Assert("end-offset", vx.Implies(lastPgOK, end == refEnd+hole))
 	}
 }
 
